@@ -425,6 +425,25 @@ theorem C07_lazy_seek (o : RecOpt) (docs tfs : List Nat) (hv : ValidList docs tf
   exact ⟨key _ (open_lazyAt cfg o (by decide) (by decide) docs tfs hv),
     fun p hs hf => key _ (reset_lazyAt o docs tfs hv p hs hf)⟩
 
+/-- … and the term frequency: when the option stores frequencies and some doc is `≥ target`, the
+frequency buffer shows at the returned index the term frequency of the doc the seek landed on —
+for the freshly opened and for the recycled cursor. -/
+theorem C07_lazy_seek_freq (o : RecOpt) (ho : hasFreq o = true) (docs tfs : List Nat)
+    (hv : ValidList docs tfs) (hT : ∀ d ∈ docs, d < cfg.T) (target : Nat) (ht : target ≤ cfg.T)
+    (hrank : docs.countP (· < target) < docs.length) :
+    (let r := (BlockPostings.open cfg o o docs.length (encodeTerm cfg o docs tfs)).seek cfg target
+     r.1.freqs.getD r.2 0 = tfs.getD (docs.countP (· < target)) 0) ∧
+    ∀ p : BlockPostings, p.skip.skipInfo = o → p.freqOpt = .readFreq →
+      (let r := (p.reset cfg docs.length (encodeTerm cfg o docs tfs)).seek cfg target
+       r.1.freqs.getD r.2 0 = tfs.getD (docs.countP (· < target)) 0) := by
+  have hfo : freqOptOf o o = .readFreq := by cases o <;> simp_all [freqOptOf, hasFreq]
+  refine ⟨seek_lazyAt_freq o ho docs tfs hv hT target ht 0 _
+      (open_lazyAt cfg o (by decide) (by decide) docs tfs hv)
+      (open_freqsAt cfg o ho (by decide) docs tfs) (by simp) hrank, fun p hs hf => ?_⟩
+  exact seek_lazyAt_freq o ho docs tfs hv hT target ht 0 _
+    (reset_lazyAt o docs tfs hv p hs (by rw [hfo]; exact hf))
+    (reset_freqsAt cfg p _ _ hf) (by simp) hrank
+
 /-- **A program of seeks on the lazy cursor** (non-decreasing targets, the `DocSet` contract): every
 seek of the program — each continuing from the block the previous one stopped on, without
 re-decoding when the skip reader did not move — lands on the first doc `≥` its target. -/
@@ -701,6 +720,9 @@ example : Recorder.permuted [[[⟨[97], 0, 1⟩]], [], [[⟨[98], 0, 1⟩]]] (fu
     (∀ i, i < 3 → (fun d => 2 - d) i < 3 ∧ (fun j => 2 - j) ((fun d => 2 - d) i) = i) := by decide
 example : (FieldSerializer.segmentFiles .freqs [[[⟨[97], 0, 1⟩, ⟨[98], 1, 1⟩]], [[⟨[97], 0, 1⟩]]]).infos.length = 2 ∧
     (invert [[[⟨[97], 0, 1⟩, ⟨[98], 1, 1⟩]], [[⟨[97], 0, 1⟩]]]).terms.length = 2 := by decide +kernel
+example : ((BlockPostings.open cfg .freqs .freqs 3 [129, 132, 132, 130, 129, 135]).seek cfg 2).1.freqs.getD
+    ((BlockPostings.open cfg .freqs .freqs 3 [129, 132, 132, 130, 129, 135]).seek cfg 2).2 0 = 1 ∧
+    encodeTerm cfg .freqs [1, 5, 9] [2, 1, 7] = [129, 132, 132, 130, 129, 135] := by decide +kernel
 example : Recorder.sortPostings ([⟨0, 1, [0]⟩, ⟨1, 2, [0, 2]⟩, ⟨2, 1, [4]⟩].map (Recorder.remapPosting (fun d => 2 - d))) =
     [⟨0, 1, [4]⟩, ⟨1, 2, [0, 2]⟩, ⟨2, 1, [0]⟩] := by decide
 example : BlockPostings.seekAll cfg (BlockPostings.open cfg .basic .basic 3 [129, 132, 132]) [0, 2, 9, 10] =
